@@ -1,5 +1,5 @@
 CFG = {
-    "modules": ["Parsley.Props.C03", "Parsley.Props.C03E2E", "Parsley.Props.C03E2EXref", "Parsley.Props.C03E2EObjStm", "Parsley.Props.C03E2EAll", "Parsley.Props.C03Render", "Parsley.Props.C03RenderX"],
+    "modules": ["Parsley.Props.C03", "Parsley.Props.C03E2E", "Parsley.Props.C03E2EXref", "Parsley.Props.C03E2EObjStm", "Parsley.Props.C03E2EAll", "Parsley.Props.C03Render", "Parsley.Props.C03RenderX", "Parsley.Props.C03Enc"],
     "theorems": [
         "Parsley.C03.identity_mismatch_rejected", "Parsley.C03.identity_mismatch_rejected_second",
         "Parsley.C03.firstPass_reject_lifts", "Parsley.C03.firstPass_direct",
@@ -50,6 +50,15 @@ CFG = {
         "Parsley.C03.renderHistory_xrefstream_wf_partial", "Parsley.C03.render_xrefstream_loads_partial", "Parsley.C03.render_xrefstream_binds_partial",
         "Parsley.LoaderE2E.renderXrefStream_eq", "Parsley.LoaderE2E.xstm_ok", "Parsley.LoaderE2E.xstm_dict", "Parsley.LoaderE2E.xstm_stored",
         "Parsley.LoaderE2E.xfileOf_wf", "Parsley.LoaderE2E.render_is_xrefstream",
+        # mutation sweep follow-up: the `encrypted` flag (/Encrypt)
+        "Parsley.C03.section_raises_flag", "Parsley.C03.parseXrefStream_flag", "Parsley.C03.parseXrefSection_flag_mono",
+        "Parsley.C03.stream_refused_when_flagged", "Parsley.C03.hybrid_refused_when_declared", "Parsley.C03.loop_adds_nothing_when_flagged",
+        "Parsley.C03.objStmParse_flagged", "Parsley.C03.objStmPass_flagged", "Parsley.C03.objstm_skipped_when_flagged",
+        "Parsley.C03.loads_classic_declared", "Parsley.C03.refused_hybrid_declared", "Parsley.C03.refused_declared_above_stream",
+        "Parsley.C03.encrypt_in_stream_dict_ignored_observation", "Parsley.C03.encrypt_declared_below_streams_witness",
+        "Parsley.DocSpec.renderRevE_none", "Parsley.DocSpec.renderHistoryE_none",
+        "Parsley.DocSpec.asBuilt_classic", "Parsley.DocSpec.asBuilt_undeclared", "Parsley.DocSpec.asBuilt_reject_acceptable",
+        "Parsley.DocSpec.walkFlag_true_trailer", "Parsley.DocSpec.asBuilt_one_section",
     ],
     "partial": {
         "load_defines_exactly_partial":
@@ -122,6 +131,11 @@ CFG = {
             "load_never_panics keeps ONLY the size hypothesis DecodedSizes (decoder outputs are Rust buffers <= 2^63 bytes, needed only for decoder inputs above "
             "2^63/2064 bytes; applyFilter_len bounds the output by 2064 x input; size_clause_false shows the unrestricted size clause is false of a list model, "
             "so it is an environment assumption - such a buffer cannot be allocated - not a proof gap).",
+        "(observation, not a finding)": "an /Encrypt entry in a cross-reference stream's dictionary is never consulted by the loader (only trailer dictionaries are): such a document "
+            "loads to exactly its objects, which is what C03 demands - encrypt_in_stream_dict_ignored_observation records the behaviour of the code; C03 does not mention encryption, so a "
+            "document that declares may be refused or must load exactly (DocSpec.acceptable). The accepted-with-members-missing defect (C04-encrypt-declared-below-streams) has NO one-revision "
+            "instance: DocSpec.asBuilt_one_section (a classic table has no type-2 entries, a stream section never raises the flag, a hybrid section whose trailer declares is refused before "
+            "its stream is read - model side: hybrid_refused_when_declared, stream_refused_when_flagged)",
         "(known finding)": "hybrid files whose hidden objects have generation-0 free entries lose those objects (#31): hybrid_hidden_gen0_witness; "
             "same root cause as C04-generation-changed",
     },
@@ -145,7 +159,13 @@ CFG = {
             "section, when that is a classic table read by position, must be defined and have n g obj at its offset (class accepted-with-wrong-object-at-entry); "
             "every 5th case index a `w0` document: a cross-reference stream WITHOUT a type field (/W [0 n m], only in-use rows, /Index leaving out object 0) - "
             "as the file's section, or behind a hybrid table whose /XRefStm stream lists every second user object as in-use rows that the table does not mention (must load exactly; "
-            "catches a decoder that forgets the type-1 default of a zero-width type field); every 4th document again with the offsets of two in-use "
+            "catches a decoder that forgets the type-1 default of a zero-width type field); every 5th case index an `enc` document that DECLARES ENCRYPTION (encoder DocSpec.renderHistoryE = renderHistory + an optional /Encrypt entry per revision, "
+            "proved equal to it when there is none): /Encrypt <reference to an existing or unused number | direct dictionary> in the trailer of a classic table, in the "
+            "dictionary of the cross-reference stream, or for hybrid files in the trailer / the /XRefStm stream's dictionary / both (12 layout x placement combinations), object streams present or "
+            "not at random; oracle = DocSpec.acceptable: a document that declares may be REFUSED or must load EXACTLY the objects DocSpec.resolve says - accepted with objects missing, extra or wrong "
+            "is bad (the statement does not mention encryption, so nothing more is demanded); corpus/C03/encrypted.case (hand-built `decl` files: declared classic / hybrid / stream-dictionary-only, judged "
+            "by the same rule, + undeclared controls that must load exactly); "
+            "every 4th document again with the offsets of two in-use "
             "entries exchanged (must be rejected); every 2nd with one corruption (truncate, alter/delete/insert a byte, replace a number by an extreme "
             "one, cut the middle) judged for correspondence and no panic. Oracle = DocSpec.resolve on what the encoder wrote (never the model); it also "
             "re-derives the file from the seed and compares the bytes. non-trivial = document/history of >= 300 bytes, any mismatch or corpus case, a "
@@ -157,6 +177,7 @@ CFG = {
         "hook (feature verif): exit_log! unwinds with VerifExit instead of process::exit(1); PDFObjContext::verif_ids lists the defined identifiers",
     ],
     "assumptions": [
+        "documents that declare encryption are not really encrypted (the loader never decrypts; only the declaration and its position matter to the code under test)",
         "the harness needs the hook patch pending_fixes/C03-00-hook-unwinding-exit-log.patch applied to /repo",
         "generated documents keep the magic '%PDF-' out of the leading garbage and the keywords startxref / trailer out of object values (they would be found by the scans)",
         "a PNG predictor over zero rows (empty hybrid cross-reference stream) is rejected by the predictor code; the generator keeps such streams plain",
@@ -178,5 +199,9 @@ LEVEL = {
             "C02, C05, C13, C14, C06, C07; and the executable generator's classic-table output (scalar values) is proved to be such a well-formed layout. "
             "The full statement over GENERATED files (all layouts, Huffman-coded zlib streams, non-scalar spellings) is decided on the real code by the oracle over generated documents covering table / stream / hybrid, /W, /Index, Flate + PNG-Up, "
             "object streams, direct and referenced /Length, leading garbage; model and code agree on every generated and corrupted file. Known "
-            "finding #31 (hybrid, hidden object with a generation-0 free entry is lost) is reproduced, classified on the case and witnessed by a theorem.",
+            "finding #31 (hybrid, hidden object with a generation-0 free entry is lost) is reproduced, classified on the case and witnessed by a theorem. "
+            "THE ENCRYPTED FLAG (Props/C03Enc.lean, Spec/DocEnc.lean): proved for all inputs that a trailer with /Encrypt raises the flag and nothing lowers it, that with the flag up no "
+            "cross-reference stream contributes an entry (a hybrid section that declares is refused) and no object stream defines a member; documents declaring encryption in every layout and "
+            "placement are run through the real code: refused or loaded exactly (never with objects missing). Observation (not a finding): /Encrypt in a cross-reference stream's dictionary is "
+            "never consulted; such documents load exactly.",
 }
